@@ -115,6 +115,12 @@ pub fn factory_with(cfg: DustDdsConfiguration) -> &'static Factory {
     .0
 }
 
+/// A scenario of this engine needs well under 10^5 executor polls (a 100 s lease expiry ~ 2*10^4); a
+/// worker that keeps re-running at one virtual instant is reported as a livelock after 2*10^6.
+pub fn limit_steps() {
+    with_world(|w| w.step_limit = 2_000_000);
+}
+
 pub fn time_of_ns(ns: u64) -> Time {
     Time::new((ns / 1_000_000_000) as i32, (ns % 1_000_000_000) as u32)
 }
